@@ -999,3 +999,98 @@ def bool_table(fn_or_text, max_atoms=8):
         r = run(stmts, asg)
         table[vals] = "fallthrough" if r is None else ("raise" if r[0] == "raise" else r[1])
     return atoms, table
+
+
+# ---------------------------------------------------------------------------------------------------------------------
+# Path enumeration of a loop-free function body with case splitting on undecided tests.
+# ---------------------------------------------------------------------------------------------------------------------
+
+
+def enumerate_paths(fn, decide=None, max_paths=256):
+    """Yield (assumptions, env, exit) for every path through fn's body, where assumptions is {test text: bool} for the
+    tests that had to be split, env is {local: value expr at the exit} and exit is the Return / Raise node (None when
+    the body falls off its end).  `decide(test, env, assumptions)` may return True / False to prune; None splits.
+    Statement kinds other than If / Assign / AugAssign / Return / Raise / Assert / Expr / Pass / Import decline."""
+    out = []
+
+    def default_decide(test, env, asm):
+        key = unparse(test)
+        if key in asm:
+            return asm[key]
+        if isinstance(test, ast.UnaryOp) and isinstance(test.op, ast.Not):
+            v = dec(test.operand, env, asm)
+            return None if v is None else (not v)
+        # `x is None` / `x is not None` on a local with a known value
+        if isinstance(test, ast.Compare) and len(test.ops) == 1 and isinstance(test.ops[0], (ast.Is, ast.IsNot)) and isinstance(test.left, ast.Name) and isinstance(test.comparators[0], ast.Constant) and test.comparators[0].value is None:
+            if test.left.id in env:
+                v = env[test.left.id]
+                isnone = isinstance(v, ast.Constant) and v.value is None
+                known = isinstance(v, (ast.Constant, ast.Name, ast.UnaryOp, ast.BinOp, ast.Attribute))
+                if known:
+                    return isnone if isinstance(test.ops[0], ast.Is) else (not isnone)
+        return None
+
+    def dec(test, env, asm):
+        if decide is not None:
+            v = decide(test, env, asm)
+            if v is not None:
+                return v
+        return default_decide(test, env, asm)
+
+    def assign(name, value, env, asm, cont):
+        # split conditional expressions
+        if isinstance(value, ast.IfExp):
+            v = dec(value.test, env, asm)
+            for branch, val in ((True, value.body), (False, value.orelse)):
+                if v is None or v is branch:
+                    a2 = dict(asm)
+                    if v is None:
+                        a2[unparse(value.test)] = branch
+                    assign(name, val, dict(env), a2, cont)
+            return
+        env = dict(env)
+        env[name] = value
+        cont(env, asm)
+
+    def run(stmts, env, asm, k):
+        """execute stmts then call k(env, asm) if control falls through"""
+        if len(out) > max_paths:
+            raise AnalysisError(f"shape not recognised: too many paths in {qualname_of(fn)}")
+        if not stmts:
+            return k(env, asm)
+        s, rest = stmts[0], stmts[1:]
+        if isinstance(s, ast.If):
+            v = dec(s.test, env, asm)
+            for branch, body in ((True, s.body), (False, s.orelse)):
+                if v is None or v is branch:
+                    a2 = dict(asm)
+                    if v is None:
+                        a2[unparse(s.test)] = branch
+                    run(list(body), dict(env), a2, lambda e, a: run(rest, e, a, k))
+            return
+        if isinstance(s, ast.Return):
+            out.append((dict(asm), dict(env), s))
+            return
+        if isinstance(s, ast.Raise):
+            out.append((dict(asm), dict(env), s))
+            return
+        if isinstance(s, ast.Assign) and len(s.targets) == 1 and isinstance(s.targets[0], ast.Name):
+            return assign(s.targets[0].id, s.value, env, asm, lambda e, a: run(rest, e, a, k))
+        if isinstance(s, ast.Assign) and len(s.targets) == 1 and isinstance(s.targets[0], ast.Tuple) and isinstance(s.value, ast.Tuple) and len(s.value.elts) == len(s.targets[0].elts):
+            env = dict(env)
+            for t, v in zip(s.targets[0].elts, s.value.elts):
+                if isinstance(t, ast.Name):
+                    env[t.id] = v
+            return run(rest, env, asm, k)
+        if isinstance(s, (ast.Assign, ast.AugAssign, ast.AnnAssign)):
+            env = dict(env)
+            for t in ast.walk(s.targets[0] if isinstance(s, ast.Assign) else s.target):
+                if isinstance(t, ast.Name):
+                    env[t.id] = ast.Name(id=f"<{t.id}@{s.lineno}>", ctx=ast.Load())  # opaque
+            return run(rest, env, asm, k)
+        if isinstance(s, (ast.Expr, ast.Pass, ast.Assert, ast.Import, ast.ImportFrom, ast.Global, ast.Nonlocal, ast.FunctionDef)):
+            return run(rest, env, asm, k)
+        raise AnalysisError(f"shape not recognised: `{norm_text(s, 50)}` in {qualname_of(fn)} (path enumeration handles loop-free bodies)")
+
+    run(list(fn.body), {}, {}, lambda e, a: out.append((dict(a), dict(e), None)))
+    return out
